@@ -4,6 +4,7 @@ import (
 	"bytes"
 	"errors"
 	"fmt"
+	cosmos_proto "github.com/cosmos/cosmos-proto"
 	"strings"
 
 	"github.com/cosmos/cosmos-proto/anyutil"
@@ -181,6 +182,14 @@ func checkPack(h *hz.H, md protoreflect.MessageDescriptor, d protoreflect.Messag
 			h.Sample(map[string]interface{}{"kind": "pack/unpack", "type": tname, "value": label, "options": on, "type_url": dst.TypeUrl, "value_hex": fmt.Sprintf("%x", dst.Value)})
 		}
 	}
+}
+
+func typeResolversForExt() map[string]protoregistry.MessageTypeResolver {
+	only := &protoregistry.Types{}
+	if mt, err := protoregistry.GlobalTypes.FindMessageByName("B"); err == nil {
+		only.RegisterMessage(mt)
+	}
+	return map[string]protoregistry.MessageTypeResolver{"nil(global)": nil, "empty": &protoregistry.Types{}, "only-B": only, "global": protoregistry.GlobalTypes}
 }
 
 func firstDiff(a, b []byte) int {
@@ -373,6 +382,42 @@ func runC16(h *hz.H) {
 		}
 	}
 	h.Rep.Bounds["big_map_messages"] = bigMaps
+	// (1d) messages carrying populated extension fields (descriptor options with cosmos_proto's custom options): both
+	// unpack paths return a message equal to the source, with the extension fields as fields (not as unknown bytes),
+	// whatever type resolver is handed in
+	{
+		fo := &descriptorpb.FieldOptions{Deprecated: proto.Bool(true)}
+		proto.SetExtension(fo, cosmos_proto.E_Scalar, "cosmos.AddressString")
+		proto.SetExtension(fo, cosmos_proto.E_AcceptsInterface, "verif.Iface")
+		mo := &descriptorpb.MessageOptions{Deprecated: proto.Bool(true)}
+		proto.SetExtension(mo, cosmos_proto.E_ImplementsInterface, []string{"a.B", "c.D"})
+		for _, src := range []proto.Message{fo, mo} {
+			tname := string(src.ProtoReflect().Descriptor().FullName())
+			a, err := anyutil.New(src)
+			c := c16case{Kind: "pack-extensions", Type: tname}
+			if err != nil || a.TypeUrl != "/"+tname {
+				h.Violate("C16/pack/extensions/failed", fmt.Sprintf("anyutil.New(%s with extension fields): err=%v any=%v", tname, err, a), c)
+				continue
+			}
+			for rn, tr := range typeResolversForExt() {
+				for fn, fr := range map[string]protodesc.Resolver{"nil(global)": nil, "global": protoregistry.GlobalFiles} {
+					var m proto.Message
+					var uerr error
+					h.Eval(true, hz.Hash("C16ext", tname, rn, fn))
+					p := hz.Catch(func() { m, uerr = anyutil.Unpack(a, fr, tr) })
+					cc := c
+					cc.TypeRes, cc.FileRes = rn, fn
+					if p != nil || uerr != nil || m == nil {
+						h.Violate("C16/unpack/extensions/failed", fmt.Sprintf("Unpack(Pack(%s with extension fields)) with type resolver %s, file resolver %s: panic=%v err=%v", tname, rn, fn, p, uerr), cc)
+						continue
+					}
+					if !proto.Equal(src, m) || !proto.Equal(m, src) || len(m.ProtoReflect().GetUnknown()) != 0 {
+						h.Violate("C16/unpack/extensions/value", fmt.Sprintf("Unpack(Pack(%s)) with type resolver %s, file resolver %s is not equal to the packed message: got %v (unknown bytes %x), want %v", tname, rn, fn, m, m.ProtoReflect().GetUnknown(), src), cc)
+					}
+				}
+			}
+		}
+	}
 	// (2) every Any x resolver combination returns a message or an error, never panics
 	valid, _ := proto.Marshal(&anypb.Any{TypeUrl: "/x", Value: []byte{1}})
 	bEnc := []byte{0x0a, 0x01, 0x78} // testpb.B{x:"x"} and many others: field 1 bytes "x"
